@@ -183,7 +183,7 @@ func main() {
 		return
 	}
 	defer drv.Close()
-	run.Res.Rule = "lexer: (a) ALL byte strings of <= 4 (quick) / <= 5 (thorough) symbols over the 16-symbol alphabet {a 1 0 . e - \" \\ n u SP LF # { $ é} (thorough adds <= 4 over a 26-symbol alphabet with CR , BOM 0xFF 0x01 E + / _ :), enumerated exhaustively; (b) grammar-generated documents (Exotic on) and their mutations (byte flip/insert/delete, BOM / multi-byte / invalid UTF-8 injected into comments, strings and Ignored positions, CR/LF/CRLF rewrites, truncation); (c) targeted streams for string escapes (all valid, malformed, \\u incl. surrogates and short forms), block strings (indentation, CR/LF mixes, escaped triple quotes, unterminated) and numeric edge forms. Non-trivial = at least one non-EOF token, or an error that is not 'unexpected character' at offset 0; distinct by source bytes. (d) quoteString: every single byte and random byte strings as a StringValue: printer output = the Lean model of quoteString, and lexing it gives the value back. Compared per case: kinds, Start, End, Value bytes, error position and error call site, real vs M (always) and real vs S (unless a driver-evaluated KF predicate holds); Source.Body unchanged."
+	run.Res.Rule = "lexer: (a) ALL byte strings of <= 4 (quick) / <= 5 (thorough) symbols over the 16-symbol alphabet {a 1 0 . e - \" \\ n u SP LF # { $ é} (thorough adds <= 4 over a 26-symbol alphabet with CR , BOM 0xFF 0x01 E + / _ :), enumerated exhaustively; (b) grammar-generated documents (Exotic on) and their mutations (byte flip/insert/delete, BOM / multi-byte / invalid UTF-8 injected into comments, strings and Ignored positions, CR/LF/CRLF rewrites, truncation); (c) targeted streams for string escapes (all valid, malformed, \\u incl. surrogates and short forms), block strings (indentation, CR/LF mixes, escaped triple quotes, unterminated) and numeric edge forms. Non-trivial = at least one non-EOF token, or an error that is not 'unexpected character' at offset 0; distinct by source bytes. (e) block strings built line by line ({indent 0..4 spaces/tabs} x {empty, whitespace-only of length 0..6, content}, 2..6 lines, LF/CRLF/CR, with and without first-line content, standalone / as argument values / as descriptions of nested definitions); (d) quoteString: every single byte and random byte strings as a StringValue: printer output = the Lean model of quoteString, and lexing it gives the value back. Compared per case: kinds, Start, End, Value bytes, error position and error call site, real vs M (always) and real vs S (unless a driver-evaluated KF predicate holds); Source.Body unchanged."
 
 	one := func(c caseT) {
 		src, err := base64.StdEncoding.DecodeString(c.SrcB64)
@@ -429,6 +429,69 @@ func main() {
 				b.WriteString(r.Pick(numPieces))
 			}
 			emit("numbers", []byte(b.String()))
+		}
+	}
+
+	// ---- (e) block strings built line by line: {indent of 0..4 spaces/tabs} x {empty, whitespace-only of length 0..6, content},
+	// 2..6 lines, LF / CRLF / CR, with and without first-line content; standalone, as an argument value, and as descriptions
+	// of (nested) definitions. Covers common indent > 0 together with interior blank lines shorter, equal and LONGER than it.
+	ws := func(r *hx.Rng, n int) string {
+		var b strings.Builder
+		tabs := r.Chance(1, 5)
+		for k := 0; k < n; k++ {
+			if tabs && r.Chance(1, 2) {
+				b.WriteByte('\t')
+			} else {
+				b.WriteByte(' ')
+			}
+		}
+		return b.String()
+	}
+	blockLines := func(r *hx.Rng) string {
+		var b strings.Builder
+		b.WriteString("\"\"\"")
+		nl := r.Range(2, 6)
+		base := r.Intn(5) // the indent most content lines share, so that a common indent > 0 is frequent
+		for i := 0; i < nl; i++ {
+			if i > 0 {
+				b.WriteString(r.Pick([]string{"\n", "\n", "\r\n", "\r"}))
+			}
+			if i == 0 && r.Chance(1, 2) {
+				continue // no first-line content
+			}
+			switch r.Intn(5) {
+			case 0: // empty
+			case 1, 2: // whitespace-only, length 0..6
+				b.WriteString(ws(r, r.Intn(7)))
+			default: // content
+				ind := base
+				if r.Chance(1, 3) {
+					ind = r.Intn(5)
+				}
+				b.WriteString(ws(r, ind))
+				b.WriteString(r.Pick([]string{"a", "first", "second", "x y", "é", "b  ", "\\\"\"\"", "q\"", "#", "\\n"}))
+			}
+		}
+		b.WriteString("\"\"\"")
+		return b.String()
+	}
+	nb := run.N(5000, 400000)
+	for i := 0; i < nb && !run.TooManyViolations(); i++ {
+		r := hx.Fork(run.Seed, 3000000+i)
+		bs := blockLines(r)
+		switch r.Intn(6) {
+		case 0:
+			emit("blocklines", []byte(bs))
+		case 1:
+			emit("blocklines", []byte("{ f(a: "+bs+", b: "+blockLines(r)+") }"))
+		case 2:
+			emit("blocklines", []byte(bs+"\ntype T {\n  "+blockLines(r)+"\n  f(\n    "+blockLines(r)+"\n    a: Int): Int\n}"))
+		case 3:
+			emit("blocklines", []byte("enum E {\n\t"+bs+"\n\tA\n}\n"+blockLines(r)+" scalar S"))
+		case 4:
+			emit("blocklines", []byte("\xef\xbb\xbf"+bs+" "+blockLines(r)))
+		default:
+			emit("blocklines", []byte("x "+bs+" y"))
 		}
 	}
 
